@@ -227,6 +227,45 @@ def api_pipeline(c, d, outpath):
     return found
 
 
+def _tok(t):
+    try:
+        return round(float(t), 5)
+    except ValueError:
+        return t
+
+
+def same_content(a, b, fmt):
+    """None if the two output files state the same content, else a short reason"""
+    if fmt == "lmpdat":
+        from mv import ref_lammps
+        try:
+            pa, pb = ref_lammps.parse(a), ref_lammps.parse(b)
+        except ref_lammps.FormatError as e:
+            return "not a well-formed LAMMPS data file: %s" % e
+        if pa["counts"] != pb["counts"] or pa["types"] != pb["types"]:
+            return "header counts differ: %r vs %r" % ((pa["counts"], pa["types"]), (pb["counts"], pb["types"]))
+        for k in set(pa["box"]) | set(pb["box"]):
+            if k not in pa["box"] or k not in pb["box"] or max(abs(x - y) for x, y in zip(pa["box"][k], pb["box"][k])) > 1e-5:
+                return "box differs"
+        if (pa["tilt"] is None) != (pb["tilt"] is None) or (pa["tilt"] and max(abs(x - y) for x, y in zip(pa["tilt"], pb["tilt"])) > 1e-5):
+            return "tilt differs"
+        if set(pa["sections"]) != set(pb["sections"]):
+            return "sections differ: %r vs %r" % (sorted(pa["sections"]), sorted(pb["sections"]))
+        for name in pa["sections"]:
+            ra, rb = pa["sections"][name], pb["sections"][name]
+            if len(ra) != len(rb):
+                return "%s has %d vs %d rows" % (name, len(ra), len(rb))
+            for (ta, _), (tb, _) in zip(ra, rb):
+                if [_tok(x) for x in ta] != [_tok(x) for x in tb]:
+                    return "%s row differs: %r vs %r" % (name, ta, tb)
+        return None
+    la = [[_tok(x) for x in l.split()] for l in a.split("\n") if l.strip() and not l.lstrip().startswith("#")]
+    lb = [[_tok(x) for x in l.split()] for l in b.split("\n") if l.strip() and not l.lstrip().startswith("#")]
+    if la != lb:
+        return "content lines differ"
+    return None
+
+
 def oracle(c, stats):
     from click.testing import CliRunner
     from mofun.cli.mofun_cli import mofun_cli
@@ -279,10 +318,15 @@ def oracle(c, stats):
     with open(api_out) as f:
         t_api = f.read()
     if t_cli != t_api:
-        la, lb = t_cli.split("\n"), t_api.split("\n")
-        diff = [(x, y) for x, y in zip(la, lb) if x != y][:2]
-        raise Violation("output-differs", "mofun %s: output differs from the API pipeline (%d vs %d lines); first differing lines "
-                        "(CLI / API): %r" % (shown, len(la), len(lb), diff))
+        # the statement asks for "a file describing the same structure": when the bytes differ, compare what the two files
+        # say (numbers numerically, words literally, comments ignored) before calling it a violation
+        why = same_content(t_cli, t_api, c["outfmt"])
+        if why is not None:
+            la, lb = t_cli.split("\n"), t_api.split("\n")
+            diff = [(x, y) for x, y in zip(la, lb) if x != y][:2]
+            raise Violation("output-differs", "mofun %s: output does not describe the same structure as the API pipeline (%s); "
+                            "%d vs %d lines; first differing lines (CLI / API): %r" % (shown, why, len(la), len(lb), diff))
+        stats.count("bytes-differ-but-same-content")
     if c["mode"] == "find":
         m = re.search(r"Found (\d+) instances", res.output)
         if not m or int(m.group(1)) != len(found):
@@ -356,8 +400,12 @@ def doc_oracle(c, stats):
         else:
             found = find_pattern_in_structure(atoms, search)
         atoms.save(out_api)
-    if open(out_cli).read() != open(out_api).read():
-        raise Violation("output-differs", "documented command %s: CLI output differs from the API pipeline" % name)
+    ta, tb = open(out_cli).read(), open(out_api).read()
+    if ta != tb:
+        why = same_content(ta, tb, fmt)
+        if why is not None:
+            raise Violation("output-differs", "documented command %s: CLI output does not describe the same structure as the API "
+                            "pipeline (%s)" % (name, why))
     if found is not None:
         m = re.search(r"Found (\d+) instances", res.output)
         if not m or int(m.group(1)) != len(found):
